@@ -624,8 +624,20 @@ fn horizon_terminals(rep: &Reporter, tier: Tier, terms: &[Pos], fams: &mut Vec<V
         let mut sess = Session::new(false);
         // at most three predecessors per terminal position, spread over the list
         let step = (preds.len() / 3).max(1);
-        for (p, m) in preds.iter().step_by(step).take(3) {
-            for q in [p.clone(), p.flip()] {
+        for (pi, (p, m)) in preds.iter().step_by(step).take(3).enumerate() {
+            // the same predecessor late in a game: the terminal position is reached with the half-move
+            // clock at 100 and at 141 (mate and stalemate take precedence over the fifty-move rule)
+            let mut variants = vec![p.clone(), p.flip()];
+            if pi == 0 && !m.is_capture() {
+                for half in [99u64, 140] {
+                    let mut late = p.clone();
+                    late.half = half;
+                    late.full = 90;
+                    variants.push(late.flip());
+                    variants.push(late);
+                }
+            }
+            for q in variants {
                 let mu = if q.stm == p.stm { m.uci() } else { format!("{}{}", sq_name(m.from ^ 56), sq_name(m.to ^ 56)) };
                 let out = search_depth(&mut sess, &q, &[], 1, &format!(" searchmoves {}", mu));
                 hz_n.fetch_add(1, Ordering::Relaxed);
@@ -642,7 +654,7 @@ fn horizon_terminals(rep: &Reporter, tier: Tier, terms: &[Pos], fams: &mut Vec<V
                 }
                 let expected = if mate { Score::Mate { mate_in: 1 } } else { verif::score_from_value(-verif::draw_score(), &board_of(&q)) };
                 if out.score != Some(expected) {
-                    let sig = if mate { "mate_at_the_horizon_not_scored_as_mate_1" } else if many { "stalemate_at_the_horizon_not_scored_as_draw:more_than_8_pseudo_legal_moves" } else { "stalemate_at_the_horizon_not_scored_as_draw" };
+                    let sig = if mate && q.half >= 99 { "mate_at_the_horizon_not_scored_as_mate_1:half_move_clock_100_or_more" } else if mate { "mate_at_the_horizon_not_scored_as_mate_1" } else if many { "stalemate_at_the_horizon_not_scored_as_draw:more_than_8_pseudo_legal_moves" } else { "stalemate_at_the_horizon_not_scored_as_draw" };
                     rep.report(sig.to_string(), case(json!({"expected": score_text(&expected), "actual": score_json(&out.score), "terminal_position": t.to_fen()})));
                 }
             }
